@@ -65,23 +65,49 @@ pub fn plans(ctx: &WorkerCtx) -> Vec<Plan> {
     let g2 = fam::g2(if q { 5999 } else { 299 }, 2);
     let ctr: Vec<_> = fam::p_ctr().into_iter().filter(|(n, _)| n.contains("load3") || n.contains("load4")).step_by(if q { 3 } else { 1 }).collect();
     let mut v = vec![];
-    v.push(Plan { name: "no machines".into(), cfgs: vec![Cfg::new("[] fw(1,1)", vec![], 1.0, 1.0), Cfg::new("[] fw(0,0)", vec![], 0.0, 0.0)], alpha_for: af(true, t4.clone()), opts: Opts { depth: 2, ..base.clone() } });
+    v.push(Plan { name: "no machines".into(), cfgs: vec![Cfg::new("[] fw(1,1)", vec![], 1.0, 1.0), Cfg::new("[] fw(0,0)", vec![], 0.0, 0.0)], alpha_for: af(true, t4.clone()), opts: Opts { depth: 2, ..base.clone() }, walk: None });
     let mut lib = vec![];
     lib.extend(g1.iter().cloned());
     lib.extend(g2.iter().cloned());
     lib.extend(ctr.iter().cloned());
     lib.extend(fam::p_lim().into_iter().step_by(2));
     lib.extend(fam::p_sig());
-    v.push(Plan { name: "one machine: G1+G2+saturation counters+limits+signals, 4 time steps".into(), cfgs: fam::singles(&lib, &fr4[..2]).into_iter().enumerate().filter(|(i, _)| !q || i % 2 == (i / 2) % 2).map(|x| x.1).collect(), alpha_for: af(false, if q { t2.clone() } else { t4.clone() }), opts: Opts { depth: if q { 3 } else { 5 }, ..base.clone() } });
-    v.push(Plan { name: "two machines, strided pairs".into(), cfgs: fam::pairs_strided(&lib, 31, 7, &fr4).into_iter().step_by(if q { 3 } else { 1 }).collect(), alpha_for: af(false, t2.clone()), opts: Opts { depth: if q { 2 } else { 4 }, ..base.clone() } });
-    v.push(Plan { name: "two machines, all ordered pairs of events".into(), cfgs: fam::pairs_strided(&lib, 13, 5, &fr4).into_iter().step_by(if q { 4 } else { 1 }).collect(), alpha_for: af(true, vec![0]), opts: Opts { depth: if q { 1 } else { 2 }, ..base.clone() } });
-    v.push(Plan { name: "three machines, strided triples".into(), cfgs: fam::triples_strided(&lib.iter().step_by(if q { 9 } else { 2 }).cloned().collect::<Vec<_>>(), &fr4), alpha_for: af(false, t2.clone()), opts: Opts { depth: if q { 2 } else { 3 }, full_positions: 4, ..base.clone() } });
+    v.push(Plan { name: "one machine: G1+G2+saturation counters+limits+signals, 4 time steps".into(), cfgs: fam::singles(&lib, &fr4[..2]).into_iter().enumerate().filter(|(i, _)| !q || i % 2 == (i / 2) % 2).map(|x| x.1).collect(), alpha_for: af(false, if q { t2.clone() } else { t4.clone() }), opts: Opts { depth: if q { 3 } else { 5 }, ..base.clone() }, walk: None });
+    v.push(Plan { name: "two machines, strided pairs".into(), cfgs: fam::pairs_strided(&lib, 31, 7, &fr4).into_iter().step_by(if q { 3 } else { 1 }).collect(), alpha_for: af(false, t2.clone()), opts: Opts { depth: if q { 2 } else { 4 }, ..base.clone() }, walk: None });
+    v.push(Plan { name: "two machines, all ordered pairs of events".into(), cfgs: fam::pairs_strided(&lib, 13, 5, &fr4).into_iter().step_by(if q { 4 } else { 1 }).collect(), alpha_for: af(true, vec![0]), opts: Opts { depth: if q { 1 } else { 2 }, ..base.clone() }, walk: None });
+    v.push(Plan { name: "three machines, strided triples".into(), cfgs: fam::triples_strided(&lib.iter().step_by(if q { 9 } else { 2 }).cloned().collect::<Vec<_>>(), &fr4), alpha_for: af(false, t2.clone()), opts: Opts { depth: if q { 2 } else { 3 }, full_positions: 4, ..base.clone() }, walk: None });
+    let corp = fam::corpus(ctx.seed.wrapping_add(17), if q { 150 } else { 1500 });
+    v.push(Plan { name: "corpus of generated 3-6 state machines (sampled), pairs: BFS plus long random walks with backwards and huge clock steps".into(), cfgs: fam::pairs_strided(&corp, 31, 7, &fr4), alpha_for: af(false, vec![0, 1, -2, 1 << 40]), opts: Opts { depth: if q { 1 } else { 2 }, ..base.clone() }, walk: Some((if q { 3 } else { 6 }, 300)) });
+    // adversarial literals (the candidate set of C12): whatever the current validation accepts must also run
+    {
+        let accepted: Vec<(String, maybenot::Machine)> = super::c12::candidates(true)
+            .into_iter()
+            .filter(|c| std::panic::catch_unwind(std::panic::AssertUnwindSafe(|| c.m.validate().is_ok())).unwrap_or(false))
+            .filter(|c| !fam::uses_binomial(std::slice::from_ref(&c.m)))
+            .map(|c| (format!("literal[{}]", c.label), c.m))
+            .collect();
+        let sub: Vec<_> = accepted.into_iter().step_by(if q { 3 } else { 1 }).collect();
+        v.push(Plan { name: "machine literals with adversarial numbers / targets that the current validation accepts".into(), cfgs: fam::singles(&sub, &fr4[..1]), alpha_for: af(false, vec![0, 1]), opts: Opts { depth: 2, n32: 2, n64: 4, full_positions: 3, max_deviations: 1, ..base.clone() }, walk: None });
+    }
+    // distributions whose start / max relate badly (start > max > 0, NaN, infinities): validation does not relate them
+    {
+        use maybenot::dist::{Dist, DistType};
+        let mut lib = vec![];
+        for (si, (st, mx)) in super::c13::start_max().into_iter().enumerate() {
+            for (di, d) in [DistType::Uniform { low: 1.0, high: 4.0 }, DistType::Normal { mean: 2.0, stdev: 1.0 }, DistType::Pareto { scale: 1.0, shape: 2.0 }, DistType::Geometric { probability: 0.5 }].into_iter().enumerate() {
+                for pos in 0..4 {
+                    lib.push((format!("startmax[{si},d{di},pos{pos}]"), fam::all11_machine(pos, Dist { dist: d, start: st, max: mx })));
+                }
+            }
+        }
+        v.push(Plan { name: "P-STARTMAX: start/max corner pairs (start > max, NaN, infinite) in every position".into(), cfgs: fam::singles(&lib, &fr4[..1]), alpha_for: af(false, vec![0]), opts: Opts { depth: 2, n32: 2, n64: 4, full_positions: 3, max_deviations: 1, ..base.clone() }, walk: None });
+    }
     // all 11 distribution families in every position; central RNG words only where a Binomial is present
     let a11 = fam::p_all11();
     let (bin, nobin): (Vec<_>, Vec<_>) = a11.into_iter().partition(|(n, _)| n.contains("binomial"));
-    v.push(Plan { name: "P-ALL11 without Binomial: 10 distribution families x 4 positions, 4-word menus".into(), cfgs: fam::singles(&nobin, &fr4[..1]), alpha_for: af(false, vec![0, 1]), opts: Opts { depth: if q { 2 } else { 3 }, n32: 2, n64: 4, full_positions: 3, max_deviations: 1, ..base.clone() } });
-    v.push(Plan { name: "P-ALL11 Binomial: central u64 words only (the sampler defect under extreme words is C13's finding)".into(), cfgs: fam::singles(&bin, &fr4[..1]), alpha_for: af(false, vec![0, 1]), opts: Opts { depth: if q { 2 } else { 3 }, n32: 2, m64_words: Some(vec![0xAAAA_AAAA_AAAA_AAAA, 0x5555_5555_5555_5555]), full_positions: 3, max_deviations: 1, ..base.clone() } });
-    v.push(Plan { name: "P-BIG: extreme values reaching the clamps and casts".into(), cfgs: fam::singles(&fam::p_big(), &fr4[..1]), alpha_for: af(false, vec![0, 1 << 40]), opts: Opts { depth: if q { 2 } else { 3 }, n32: 2, n64: 4, full_positions: 4, max_deviations: 1, ..base.clone() } });
+    v.push(Plan { name: "P-ALL11 without Binomial: 10 distribution families x 4 positions, 4-word menus".into(), cfgs: fam::singles(&nobin, &fr4[..1]), alpha_for: af(false, vec![0, 1]), opts: Opts { depth: if q { 2 } else { 3 }, n32: 2, n64: 4, full_positions: 3, max_deviations: 1, ..base.clone() }, walk: None });
+    v.push(Plan { name: "P-ALL11 Binomial: central u64 words only (the sampler defect under extreme words is C13's finding)".into(), cfgs: fam::singles(&bin, &fr4[..1]), alpha_for: af(false, vec![0, 1]), opts: Opts { depth: if q { 2 } else { 3 }, n32: 2, m64_words: Some(vec![0xAAAA_AAAA_AAAA_AAAA, 0x5555_5555_5555_5555]), full_positions: 3, max_deviations: 1, ..base.clone() }, walk: None });
+    v.push(Plan { name: "P-BIG: extreme values reaching the clamps and casts".into(), cfgs: fam::singles(&fam::p_big(), &fr4[..1]), alpha_for: af(false, vec![0, 1 << 40]), opts: Opts { depth: if q { 2 } else { 3 }, n32: 2, n64: 4, full_positions: 4, max_deviations: 1, ..base.clone() }, walk: None });
     v
 }
 
